@@ -142,7 +142,7 @@ def sameBalances (accts : List Addr) (p c : State) (ds : List Denom) : Bool :=
 /-- invariants of a single state -/
 def stateChecks (tainted : Bool) (invOk : Bool) (c : State) (ds : List Denom) : List (Bool × String) :=
   [ (tainted || holderCoversB c ds, "holder_covers_records"),
-    (invOk = holderCoversB c ds, "chain_invariant_wrong"),
+    (chainInvariantAgrees invOk c ds, "chain_invariant_wrong"),
     (keyOKB c, "record_key_mismatch"),
     (noneFullyAcceptedB c, "fully_accepted_record_kept"),
     (indexOKB c, "index_incomplete") ]
@@ -255,10 +255,7 @@ def checkPure (ws : List String) (impl : String) : String :=
     match words impl with
     | ["ok", out] =>
       let out := (splitList out ",").map parseSfx
-      if !strictSorted out then "fail:simplify_not_sorted_unique"
-      else if !(out.all fun x => l.contains x && !rm.contains x) then "fail:simplify_invented_or_kept_removed"
-      else if !(l.all fun x => rm.contains x || out.contains x) then "fail:simplify_lost_suffix"
-      else "ok"
+      simplifyVerdict rm l out
     | _ => "fail:simplify_failed"
   | _ => "-"
 
